@@ -569,8 +569,20 @@ impl EncodingVersion for EncodingVersion2 {
         deserializer: &mut XTypesDeserializer<'a, E, Self>,
         dynamic_data: &mut DynamicData,
     ) -> XTypesResult<()> {
-        let _dheader = deserializer.deserialize_primitive_type::<u32>();
-        deserializer.deserialize_fstruct_type(dynamic_data)
+        // The DHEADER delimits the object: members the reader does not know are skipped,
+        // members the writer does not have are not read from what follows the object
+        let dheader = deserializer.deserialize_primitive_type::<u32>()? as usize;
+        let end = deserializer.reader.pos + dheader;
+        if end > deserializer.reader.buffer.len() {
+            return Err(XTypesError::NotEnoughData);
+        }
+        let whole = deserializer.reader.buffer;
+        deserializer.reader.buffer = &whole[..end];
+        let result = deserializer.deserialize_fstruct_type(dynamic_data);
+        deserializer.reader.buffer = whole;
+        result?;
+        deserializer.reader.pos = end;
+        Ok(())
     }
 }
 
